@@ -33,6 +33,25 @@ type faultBody struct {
 	delivery string
 	once     sync.Once
 	closed   chan struct{}
+	gate     *gate // nil: all of the body is available at once
+}
+
+// gate makes a body release only a prefix and reports how far its reader got
+// (dimension "the context ends at a frame-granular instant", dims.go). Read is
+// only ever called by one goroutine at a time (the reader goroutine of the
+// stream); the harness looks at the channels only.
+type gate struct {
+	off     int             // no Read crosses this offset and a Read at it blocks until ctx ends; < 0: no such offset
+	watch   int             // reached is closed as soon as this many bytes have been handed out; < 0: never
+	ctx     context.Context // the context of the request (set by the RoundTripper); once it has ended every Read fails with its error
+	reached chan struct{}
+	blocked chan struct{} // closed when a Read arrives at off
+	rOnce   sync.Once
+	bOnce   sync.Once
+}
+
+func newGate(off, watch int) *gate {
+	return &gate{off: off, watch: watch, reached: make(chan struct{}), blocked: make(chan struct{})}
 }
 
 func newFaultBody(c *Case) *faultBody {
@@ -44,6 +63,17 @@ func newFaultBody(c *Case) *faultBody {
 }
 
 func (f *faultBody) Read(p []byte) (int, error) {
+	g := f.gate
+	if g != nil {
+		if err := g.ctx.Err(); err != nil {
+			return 0, err
+		}
+		if g.off >= 0 && f.off >= g.off {
+			g.bOnce.Do(func() { close(g.blocked) })
+			<-g.ctx.Done()
+			return 0, g.ctx.Err()
+		}
+	}
 	if len(f.data) == 0 {
 		return 0, f.end
 	}
@@ -54,6 +84,9 @@ func (f *faultBody) Read(p []byte) (int, error) {
 	if f.delivery == "bytewise" {
 		n = 1
 	}
+	if g != nil && g.off >= 0 && f.off+n > g.off {
+		n = g.off - f.off
+	}
 	for _, b := range f.splits {
 		if f.off < b && b < f.off+n {
 			n = b - f.off
@@ -62,6 +95,9 @@ func (f *faultBody) Read(p []byte) (int, error) {
 	n = copy(p[:n], f.data)
 	f.data = f.data[n:]
 	f.off += n
+	if g != nil && g.watch >= 0 && f.off >= g.watch {
+		g.rOnce.Do(func() { close(g.reached) })
+	}
 	if f.delivery == "with-err" && len(f.data) == 0 {
 		return n, f.end
 	}
@@ -198,14 +234,19 @@ var baseURL, _ = url.Parse("http://example.test/")
 
 type recvr interface{ RecvMsg(interface{}) error }
 
-func recvAll(s recvr, o *Obs) {
+func recvAll(s recvr, o *Obs) { recvAllInto(s, o, newDest("")) }
+
+// recvAllInto receives until RecvMsg fails, into the destination objects that
+// dst hands out; what a receive yields is recorded at once (a reused object is
+// overwritten by the next receive).
+func recvAllInto(s recvr, o *Obs, dst *destSource) {
 	for i := 0; i < maxRecv; i++ {
-		var m wrapperspb.StringValue
-		if err := s.RecvMsg(&m); err != nil {
+		m := dst.next(i)
+		if err := s.RecvMsg(m); err != nil {
 			o.final(err)
 			return
 		}
-		o.deliver(&m)
+		o.deliver(m)
 	}
 	o.FinalNil = true
 }
@@ -235,7 +276,7 @@ func runClient(c *Case) *Obs {
 		}
 		started = true
 		st.CloseSend()
-		recvAll(st, o)
+		recvAllInto(st, o, newDest(c.Dest))
 	}()
 	cancel()
 	if started {
@@ -266,7 +307,7 @@ func runServer(c *Case) *Obs {
 	handlerRan := false
 	srv := newServer(func(ss grpc.ServerStream) error {
 		handlerRan = true
-		recvAll(ss, o)
+		recvAllInto(ss, o, newDest(c.Dest))
 		return nil
 	}, nil)
 	path := "/t.S/Stream"
@@ -315,13 +356,13 @@ func runUnaryClient(c *Case) *Obs {
 	before := totalAlloc()
 	func() {
 		defer recovered(o)
-		var out wrapperspb.StringValue
-		err := ch.Invoke(context.Background(), "/t.S/U", wrapperspb.String("req"), &out)
+		out := newDest(c.Dest).next(0)
+		err := ch.Invoke(context.Background(), "/t.S/U", wrapperspb.String("req"), out)
 		if err != nil {
 			o.final(err)
 			return
 		}
-		o.deliver(&out)
+		o.deliver(out)
 		o.FinalErr = "<nil>"
 	}()
 	if o.Panic == "" {
@@ -335,12 +376,12 @@ func runUnaryClient(c *Case) *Obs {
 func runUnaryServer(c *Case) *Obs {
 	o := &Obs{DeliveredS: []string{}}
 	srv := newServer(func(grpc.ServerStream) error { return nil }, func(ctx context.Context, dec func(interface{}) error) (interface{}, error) {
-		var in wrapperspb.StringValue
-		if err := dec(&in); err != nil {
+		in := newDest(c.Dest).next(0)
+		if err := dec(in); err != nil {
 			o.final(err)
 			return nil, err
 		}
-		o.deliver(&in)
+		o.deliver(in)
 		o.FinalErr = "<nil>"
 		return wrapperspb.String("resp"), nil
 	})
@@ -366,6 +407,8 @@ func runCase(c *Case) *Obs {
 		return runUnaryClient(c)
 	case c.Mode == "unary":
 		return runUnaryServer(c)
+	case c.Side == "client" && c.Ctx != nil:
+		return runClientCtx(c)
 	case c.Side == "client":
 		return runClient(c)
 	}
